@@ -6,6 +6,32 @@ feasibility, optimality (variational inequality against random physical
 points + independent SDP), fixed points, history consistency (Dykstra
 recurrences against reference projections).  The driver adds the cross-form
 comparisons (both orders, object vs variable vs closure forms, both flags).
+
+History / combination steps (second half of every case; keys carry the step as
+a suffix).  The first pass asks fresh objects once; faults that need a history
+(stale per-object cache after a setter, a result memo keyed by too little, a
+returned array that aliases a buffer overwritten by the next call, an option
+dropped on the way to a derived object, state left in a re-used closure) are
+invisible to it.  So, with the same oracles and tolerances:
+  :second-object-interleaved   a second live object of the same class / size with other data, another threshold
+                               and the other order is asked between two queries of the first objects;
+  :re-used-object              the first objects' variable-level routine is asked again with that OTHER data ...
+  :flag-differs-from-object    ... on one of them (and through a fresh closure) in the parametrisation the object was
+                               NOT built with (the routine / closure takes the flag as an argument);
+  :re-used-closure             the closures obtained in the first pass are called again with the other data; what they
+                               return is judged against the variable vector they were GIVEN;
+  :via-generate-from-var / :via-zero-obj / :via-copy   objects derived from objects with NON-DEFAULT threshold / order /
+                               flag are projected and judged against the threshold and order the driver configured (not
+                               against what the derived object claims);
+  :after-setter                set_mode_proj_order on both first objects, then the first data again on the same object
+                               (object and variable level, history on: the recorded sweeps must follow the NEW order)
+                               and on a copy() taken after the setter; results agree with the fresh object of that order;
+  :retained-result-after-later-calls   what earlier calls returned (objects and arrays the driver kept) is judged once
+                               more against ITS input after the later calls with other data on the same objects;
+  :second-input                all forms of the second input agree (cross-form tolerance).
+Only public API on supported arguments is used; no verdict compares two runs bit by bit (every verdict is one of the
+property's: feasible / nearest / history consistent with the configured threshold and order, to the sqrt(eps) tolerances).
+The first pass is unchanged (same calls, same random draws: the history steps use their own RNG stream).
 """
 import numpy as np
 
@@ -16,7 +42,14 @@ ID = "C05"
 RULE = ("input points = physical point + Gaussian noise (1e-3..1e-1), far points (norm up to 1e2), exactly physical and "
         "boundary points, negative-definite points (-c x physical, c in 0.3..50) and the zero vector; 4 types x shapes S1,S3,S2 x outcome counts 2..4 x both projection orders x eps in "
         "{1e-6,1e-8,1e-10,1e-14} x both parametrisation flags; a case is distinct by (type,shape,m,flag,eps,rounded input) "
-        "and non-trivial when the input is not already physical (the projection has to move it)")
+        "and non-trivial when the input is not already physical (the projection has to move it). "
+        "History / combination steps per case (same oracles; key suffix names the step): a second input point (physical + "
+        "0.05..1.0, on the equality constraint) and another eps drive a second live object interleaved with the first ones, "
+        "the first objects and their closures re-used with the other data (one object and a fresh closure in the "
+        "parametrisation it was not built with), objects obtained through generate_from_var / generate_zero_obj / copy() of "
+        "objects with non-default eps / order / flag (judged against the configured eps and order), set_mode_proj_order on both "
+        "objects followed by the first data again on the same object and on a copy, and a re-judgement of the results the "
+        "driver kept from earlier calls after the later calls")
 ANCHORS = [
     "quara/objects/qoperation.py:QOperation.calc_proj_physical",
     "quara/objects/qoperation.py:QOperation.calc_proj_physical_with_var",
@@ -73,31 +106,33 @@ class Oracle:
             Oracle._geo[k] = refopt.Geometry(self.t, self.B, self.d, self.m)
         return Oracle._geo[k]
 
-    def judge(self, label, a, p, hist, eps, order, max_iter, rng, want_sdp=True, view=None):
+    def judge(self, label, a, p, hist, eps, order, max_iter, rng, want_sdp=True, view=None, sfx=""):
         """view: maps a stacked vector to the coordinates in which the routine
         reports its result (variable-level routine with the flag on drops the
-        implied entries), used to compare the history's last x with the result"""
+        implied entries), used to compare the history's last x with the result.
+        sfx: suffix of every violation key, names the history step the judged call belongs to ("" = first pass)"""
         self.view = view or (lambda s: s)
+        self.sfx = sfx
         ctx, t, B, d, m = self.ctx, self.t, self.B, self.d, self.m
         self.n_calls += 1
         a = np.asarray(a, dtype=np.float64)
         p = np.asarray(p, dtype=np.float64)
         an = float(np.linalg.norm(a))
         tp, tf = tol(eps, an)
-        info = {"fn": label, "type": t, "d": d, "m": m, "eps": eps, "order": order, "a_norm": an}
+        info = {"fn": label, "type": t, "d": d, "m": m, "eps": eps, "order": order, "a_norm": an, "step": sfx or "first-pass"}
         # --- termination by criterion
         if hist is not None:
             ev = hist["error_value"]
             n_it = len(ev)
             ctx.count("iterations", n_it)
             ctx.extra["max_iterations_seen"] = max(ctx.extra.get("max_iterations_seen", 0), n_it)
-            ctx.num("terminates-by-criterion", n_it, max_iter * 0.25, max_iter, key=f"{label}:{t}:iteration-limit-hit", info=info)
+            ctx.num("terminates-by-criterion", n_it, max_iter * 0.25, max_iter, key=f"{label}:{t}:iteration-limit-hit{sfx}", info=info)
             if n_it >= max_iter:
                 return  # nothing below is promised for a run that was cut off
         # --- feasibility
         eq, ineq = refopt.violations(t, B, d, m, p)
-        ctx.num("feasible:eq", eq, tp, tf, key=f"{label}:{t}:result-violates-eq", info=info)
-        ctx.num("feasible:ineq", ineq, tp, tf, key=f"{label}:{t}:result-violates-ineq", info=info)
+        ctx.num("feasible:eq", eq, tp, tf, key=f"{label}:{t}:result-violates-eq{sfx}", info=info)
+        ctx.num("feasible:ineq", ineq, tp, tf, key=f"{label}:{t}:result-violates-ineq{sfx}", info=info)
         # --- optimality: variational inequality  <a-p, z-p> <= tol
         worst = 0.0
         ap = a - p
@@ -106,7 +141,7 @@ class Oracle:
             zp = z - p
             v = float(ap @ zp) / (1.0 + np.linalg.norm(ap) + np.linalg.norm(zp))
             worst = max(worst, v)
-        ctx.num("optimal:variational-inequality", worst, tp, tf, key=f"{label}:{t}:not-nearest:variational-inequality", info=info)
+        ctx.num("optimal:variational-inequality", worst, tp, tf, key=f"{label}:{t}:not-nearest:variational-inequality{sfx}", info=info)
         # --- optimality: independent references, computed once per input and shared by every form / order
         # (want_sdp=False only means "do not *compute* the SDP for this input": cached solutions are always used)
         ck = a.tobytes()
@@ -130,27 +165,28 @@ class Oracle:
                 gap = float(np.linalg.norm(a - p) - np.linalg.norm(a - x))
                 # (the interior-point reference is itself only accurate to ~5e-7 relative)
                 ctx.num("optimal:sdp-distance", max(gap, 0.0), tp + 2e-6 * (1 + an), tf + 2e-4 * (1 + an),
-                        key=f"{label}:{t}:not-nearest:farther-than-sdp-solution", info=dict(info, gap=gap))
+                        key=f"{label}:{t}:not-nearest:farther-than-sdp-solution{sfx}", info=dict(info, gap=gap))
                 # ... and, the nearest point being unique, must coincide with it
                 ctx.num("optimal:sdp-point", float(np.linalg.norm(p - x)), tp + 2e-5 * (1 + an), tf + 2e-3 * (1 + an),
-                        key=f"{label}:{t}:not-nearest:differs-from-sdp-solution", info=info)
+                        key=f"{label}:{t}:not-nearest:differs-from-sdp-solution{sfx}", info=info)
         # independent high-accuracy Dykstra (small configurations; no solver accuracy floor)
         if "dykstra" in refs:
             if refs["dykstra"] is None:
                 ctx.skip("optimal:reference-dykstra-point")
             else:
                 ctx.num("optimal:reference-dykstra-point", float(np.linalg.norm(p - refs["dykstra"])), tp, tf,
-                        key=f"{label}:{t}:not-nearest:differs-from-reference-dykstra", info=info)
+                        key=f"{label}:{t}:not-nearest:differs-from-reference-dykstra{sfx}", info=info)
         # --- physical input is a fixed point
         eq_a, ineq_a = refopt.violations(t, B, d, m, a)
         if max(eq_a, ineq_a) <= 1e-13:
-            ctx.num("fixed-point", float(np.linalg.norm(p - a)), tp, tf, key=f"{label}:{t}:moves-physical-input", info=info)
+            ctx.num("fixed-point", float(np.linalg.norm(p - a)), tp, tf, key=f"{label}:{t}:moves-physical-input{sfx}", info=info)
         # --- history consistency
         if hist is not None:
             self.history(label, a, p, hist, eps, order, info)
 
     def history(self, label, a, p, hist, eps, order, info):
         ctx, t, B, d, m = self.ctx, self.t, self.B, self.d, self.m
+        sfx = self.sfx
 
         def vec(o):
             if o is None:
@@ -162,15 +198,15 @@ class Oracle:
         ps, qs, xs, ys = ([vec(o) for o in hist[k]] for k in ("p", "q", "x", "y"))
         ev = hist["error_value"]
         ok_len = len(ps) == len(qs) == len(xs) == len(ys) == len(ev) + 1
-        ctx.truth("history:lengths", ok_len, key=f"{label}:{t}:history-lengths-inconsistent",
+        ctx.truth("history:lengths", ok_len, key=f"{label}:{t}:history-lengths-inconsistent{sfx}",
                   info=dict(info, lens=[len(ps), len(qs), len(xs), len(ys), len(ev)]))
         if not ok_len or len(xs) < 2:
             return
         sc = 1.0 + float(np.linalg.norm(a))
         ctx.num("history:last-x-is-result", float(np.max(np.abs(self.view(xs[-1]) - self.view(p)))) / sc, 1e-12, 1e-9,
-                key=f"{label}:{t}:history-last-x-differs-from-result", info=info)
+                key=f"{label}:{t}:history-last-x-differs-from-result{sfx}", info=info)
         ctx.num("history:x0-is-input", float(np.max(np.abs(xs[0] - a))) / sc, 1e-12, 1e-9,
-                key=f"{label}:{t}:history-first-x-differs-from-input", info=info)
+                key=f"{label}:{t}:history-first-x-differs-from-input{sfx}", info=info)
         first = (lambda s: refopt.proj_eq(t, d, m, s)) if order == "eq_ineq" else (lambda s: refopt.proj_ineq(t, B, d, m, s))
         second = (lambda s: refopt.proj_ineq(t, B, d, m, s)) if order == "eq_ineq" else (lambda s: refopt.proj_eq(t, d, m, s))
         worst_rec = worst_proj = 0.0
@@ -182,16 +218,16 @@ class Oracle:
             y1, p1, x1, q1 = ys[k + 1], ps[k + 1], xs[k + 1], qs[k + 1]
             worst_rec = max(worst_rec, float(np.max(np.abs(p1 - (x0 + p0 - y1)))), float(np.max(np.abs(q1 - (y1 + q0 - x1)))))
             worst_proj = max(worst_proj, float(np.max(np.abs(y1 - first(x0 + p0)))), float(np.max(np.abs(x1 - second(y1 + q0)))))
-        ctx.num("history:recurrence", worst_rec / sc, 1e-11, 1e-8, key=f"{label}:{t}:history-increments-violate-dykstra-recurrence", info=info)
+        ctx.num("history:recurrence", worst_rec / sc, 1e-11, 1e-8, key=f"{label}:{t}:history-increments-violate-dykstra-recurrence{sfx}", info=info)
         ctx.num("history:steps-are-projections", worst_proj / sc, 1e-9, 1e-6,
-                key=f"{label}:{t}:history-step-is-not-projection-of-corrected-point", info=info)
+                key=f"{label}:{t}:history-step-is-not-projection-of-corrected-point{sfx}", info=info)
         # stopping rule: last error below eps, earlier ones not
         evs = [e for e in ev if e is not None]
         if evs:
             ctx.truth("history:stopping-rule", evs[-1] < eps and all(e >= eps for e in evs[:-1]),
-                      key=f"{label}:{t}:stopping-rule-inconsistent-with-error-values",
+                      key=f"{label}:{t}:stopping-rule-inconsistent-with-error-values{sfx}",
                       info=dict(info, last=evs[-1], n=len(evs), n_below=sum(1 for e in evs if e < eps)))
-            ctx.truth("history:first-error-none", ev[0] is None, key=f"{label}:{t}:history-first-error-value-not-none", info=info)
+            ctx.truth("history:first-error-none", ev[0] is None, key=f"{label}:{t}:history-first-error-value-not-none{sfx}", info=info)
 
 
 def run_shard(ctx):
@@ -204,7 +240,7 @@ def run_shard(ctx):
     d = c_sys.dim
     n = d * d
     hs = HookSet(ctx)
-    state = {"oracle": None, "rng": None, "sdp": True}
+    state = {"oracle": None, "rng": None, "sdp": True, "step": "", "expect": None}
 
     def raw_of(s, m):
         s = np.ascontiguousarray(s, dtype=np.float64)
@@ -217,6 +253,18 @@ def run_shard(ctx):
         return [h.copy() for h in s.reshape(m, n, n)]
 
     # ---- hooks: every execution of the two routines is judged
+    # state["step"]   = key suffix of the history step the driver is in ("" during the first pass);
+    # state["expect"] = (eps, order) the driver configured for the object it is calling (directly, or through copy() /
+    #                   generate_from_var / generate_zero_obj / a setter): the execution is judged against the *intended*
+    #                   threshold and order, not against whatever the object claims, so an option lost on the way to a
+    #                   derived object is seen by the termination / history oracles.  None (closures' inner objects, calls
+    #                   made by quara itself) = read the public properties of the object.
+    def expected(self):
+        e = state["expect"]
+        if e is None:
+            return self.eps_proj_physical, self.mode_proj_order, {}
+        return e[0], e[1], {"object_eps": self.eps_proj_physical, "object_order": self.mode_proj_order}
+
     def post_obj(result, snap, self, max_iteration=1000, is_iteration_history=False):
         if state["oracle"] is None:
             return
@@ -224,8 +272,10 @@ def run_shard(ctx):
             obj, hist = result
         else:
             obj, hist = result, None
-        state["oracle"].judge("calc_proj_physical", gen.stacked(self), gen.stacked(obj), hist, self.eps_proj_physical,
-                              self.mode_proj_order, max_iteration, state["rng"], want_sdp=state["sdp"])
+        eps_, order_, _ = expected(self)
+        o = state["oracle"]
+        o.judge("calc_proj_physical", gen.stacked(self), gen.stacked(obj), hist, eps_, order_, max_iteration, state["rng"],
+                want_sdp=state["sdp"], sfx=state["step"])
 
     def post_var(result, snap, self, var, on_para_eq_constraint=True, max_iteration=1000, is_iteration_history=False):
         if state["oracle"] is None:
@@ -237,14 +287,31 @@ def run_shard(ctx):
         o = state["oracle"]
         a = refopt.stack_from_var(t, d, o.m, var, on_para_eq_constraint)
         p = refopt.stack_from_var(t, d, o.m, v, on_para_eq_constraint)
-        o.judge("calc_proj_physical_with_var", a, p, hist, self.eps_proj_physical, self.mode_proj_order, max_iteration,
+        eps_, order_, _ = expected(self)
+        o.judge("calc_proj_physical_with_var", a, p, hist, eps_, order_, max_iteration,
                 state["rng"], want_sdp=state["sdp"],
-                view=lambda s, _f=on_para_eq_constraint, _m=o.m: refopt.var_from_stack(t, d, _m, s, _f))
+                view=lambda s, _f=on_para_eq_constraint, _m=o.m: refopt.var_from_stack(t, d, _m, s, _f), sfx=state["step"])
 
     from quara.objects.qoperation import QOperation
 
     hs.method(QOperation, "calc_proj_physical", post=post_obj)
     hs.method(QOperation, "calc_proj_physical_with_var", post=post_var)
+
+    def call(fn_name, step, expect, fn, *a, **kw):
+        """one driver call of a library routine inside history step `step` (""= first pass); the hooks judge it; an
+        exception where the property promises a value is a violation.  Returns (ok, value)."""
+        state["step"], state["expect"] = step, expect
+        try:
+            ok, r = ctx.attempt(fn, *a, **kw)
+        finally:
+            state["step"], state["expect"] = "", None
+        if not ok:
+            ctx.violation(f"{fn_name}:{t}:" + ctx.exc_key(r) + step, {"step": step or "first-pass", "expect_eps_order": expect})
+        elif step:
+            ctx.count("history-step" + step)
+        return ok, r
+
+    HIST = dict(max_iteration=MAX_ITER, is_iteration_history=True)
 
     try:
         for i in ctx.cases(P["n"]):
@@ -289,45 +356,185 @@ def run_shard(ctx):
                 ctx.sample({"type": t, "shape": shape, "m": m, "flag": flag, "eps": eps, "input_kind": kind,
                             "input_violation_eq_ineq": list(refopt.violations(t, B, d, m, s_in)), "input_norm": float(np.linalg.norm(s_in))})
             results = {}
+            objs, kept, clo_obj, clo_var = {}, {}, {}, {}
+            sweeps = 0
             for order in ("eq_ineq", "ineq_eq"):
                 kw = dict(is_physicality_required=False, on_para_eq_constraint=flag, mode_proj_order=order, eps_proj_physical=eps)
                 ok, obj = ctx.attempt(cls, c_sys, raw_of(s_in, m), **kw)
                 if not ok:
                     ctx.violation(f"ctor:{t}:" + ctx.exc_key(obj), {})
                     continue
-                ok, r = ctx.attempt(obj.calc_proj_physical, max_iteration=MAX_ITER, is_iteration_history=True)
+                objs[order] = obj
+                ok, r = call("calc_proj_physical", "", (eps, order), obj.calc_proj_physical, **HIST)
                 if not ok:
-                    ctx.violation(f"calc_proj_physical:{t}:" + ctx.exc_key(r), {"order": order, "eps": eps})
                     continue
                 results[("obj", order)] = gen.stacked(r[0])
+                kept[("obj", order)] = r[0]
+                sweeps = max(sweeps, len(r[1]["error_value"]))
                 # variable-level routine (judged by its own hook); SDP already done for this input
                 state["sdp"] = False
-                ok, rv = ctx.attempt(obj.calc_proj_physical_with_var, var_in.copy(), on_para_eq_constraint=flag,
-                                     max_iteration=MAX_ITER, is_iteration_history=True)
-                if not ok:
-                    ctx.violation(f"calc_proj_physical_with_var:{t}:" + ctx.exc_key(rv), {"order": order, "eps": eps, "flag": flag})
-                else:
+                ok, rv = call("calc_proj_physical_with_var", "", (eps, order), obj.calc_proj_physical_with_var, var_in.copy(),
+                              on_para_eq_constraint=flag, **HIST)
+                if ok:
                     results[("var", order)] = refopt.stack_from_var(t, d, m, rv[0], flag)
+                    kept[("var", order)] = rv[0]
                 # closures
                 ok, f1 = ctx.attempt(obj.func_calc_proj_physical, on_para_eq_constraint=flag, mode_proj_order=order, max_iteration=MAX_ITER)
                 if ok:
-                    ok, v1 = ctx.attempt(f1, var_in.copy())
+                    ok, v1 = call("func_calc_proj_physical", "", None, f1, var_in.copy())
                     if ok:
                         results[("closure-obj", order)] = refopt.stack_from_var(t, d, m, v1, flag)
-                    else:
-                        ctx.violation(f"func_calc_proj_physical:{t}:" + ctx.exc_key(v1), {"order": order, "flag": flag})
+                        clo_obj[order] = f1
                 ok, f2 = ctx.attempt(obj.func_calc_proj_physical_with_var, on_para_eq_constraint=flag, mode_proj_order=order, max_iteration=MAX_ITER)
                 if ok:
-                    ok, v2 = ctx.attempt(f2, var_in.copy())
+                    ok, v2 = call("func_calc_proj_physical_with_var", "", None, f2, var_in.copy())
                     if ok:
                         results[("closure-var", order)] = refopt.stack_from_var(t, d, m, v2, flag)
-                    else:
-                        ctx.violation(f"func_calc_proj_physical_with_var:{t}:" + ctx.exc_key(v2), {"order": order, "flag": flag})
-            state["oracle"] = None
-            # ---- cross-form agreement (each form is within tol of the unique nearest point)
+                        clo_var[order] = f2
             an = float(np.linalg.norm(s_in))
             tp, tf = tol(eps, an)
             tp, tf = 4 * tp, 4 * tf
+
+            # ================================================================== history / combination steps
+            # Everything above asked fresh objects once.  The same oracles now judge (i) the same objects asked again with
+            # OTHER data and with the first data after a public setter changed them, (ii) objects reached through copy(),
+            # generate_from_var() and generate_zero_obj() of objects carrying NON-DEFAULT options, (iii) a second live object
+            # of the same class / size with other data and another threshold, interleaved with the first, (iv) the
+            # variable-level routine asked in the parametrisation the object was NOT built with, and (v) the results
+            # returned by the first pass, judged once more after all the later calls.  All calls are public API on supported
+            # argument values; every verdict is one of the property's own (feasible / nearest / history consistent for the
+            # threshold and order the driver configured), none compares two runs bit by bit.
+            def rejudge_kept(which):
+                """(v) what an earlier call returned is still the nearest physical point of ITS input after later calls with
+                other data on the same objects (a result that aliases a buffer overwritten by a later call would not be):
+                results of the first input are judged again after the second-input steps, results of the second input at
+                the very end (after the first input was asked again)"""
+                for (form, o_), val in sorted(kept.items()):
+                    if (form in ("obj", "var")) != (which == "first-input"):
+                        continue
+                    if form == "obj":
+                        a_, p_, e_, lab = s_in, gen.stacked(val), eps, "calc_proj_physical"
+                    elif form == "var":
+                        a_, p_, e_, lab = s_in, refopt.stack_from_var(t, d, m, val, flag), eps, "calc_proj_physical_with_var"
+                    elif form == "obj2":
+                        a_, p_, e_, lab = s2, gen.stacked(val), eps2, "calc_proj_physical"
+                    else:  # "var2": (array, flag it is expressed in)
+                        a_, p_, e_, lab = s2, refopt.stack_from_var(t, d, m, val[0], val[1]), eps, "calc_proj_physical_with_var"
+                    O.judge(lab, a_, p_, None, e_, o_, MAX_ITER, rng, want_sdp=False, sfx=":retained-result-after-later-calls")
+                    ctx.count("history-step:retained-result-after-later-calls")
+
+            rng2 = ctx.rng(1)  # own stream: the first pass draws exactly what it drew before these steps existed
+            a, b = ("eq_ineq", "ineq_eq") if i % 2 == 0 else ("ineq_eq", "eq_ineq")
+            other = {"eq_ineq": "ineq_eq", "ineq_eq": "eq_ineq"}
+            alt = (i + i // 2) % 2  # 0,1,1,0,...: alternates the cheaper-by-half steps independently of the roles a / b
+            if a in objs and b in objs:
+                # second input: another point of the same shape, on the equality constraint (so that it has a variable
+                # vector under both parametrisations), moderately far so that it converges fast; another threshold
+                base2 = refopt.random_physical(t, B, d, m, rng2)
+                g2 = rng2.standard_normal(base2.size)
+                s2 = base2 + g2 / np.linalg.norm(g2) * float(rng2.choice([0.05, 0.3, 1.0]))
+                s2 = refopt.stack_from_var(t, d, m, refopt.var_from_stack(t, d, m, s2, True), True)
+                var2 = {f: refopt.var_from_stack(t, d, m, s2, f) for f in (True, False)}
+                eps2 = float(rng2.choice([e for e in EPSS if e != eps]))
+                tp2, tf2 = tol(max(eps, eps2), float(np.linalg.norm(s2)))
+                state["sdp"] = False  # references for the second input: high-accuracy Dykstra where affordable, else VI only
+                # (iii) a second live object, other data, other threshold, asked between two queries of the first ones
+                ok, obj2 = ctx.attempt(cls, c_sys, raw_of(s2, m), is_physicality_required=False, on_para_eq_constraint=flag,
+                                       mode_proj_order=b, eps_proj_physical=eps2)
+                if not ok:
+                    ctx.violation(f"ctor:{t}:" + ctx.exc_key(obj2) + ":second-object", {})
+                else:
+                    ok, r2 = call("calc_proj_physical", ":second-object-interleaved", (eps2, b), obj2.calc_proj_physical, **HIST)
+                    if ok:
+                        kept[("obj2", b)] = r2[0]
+                        results[("obj2", b)] = gen.stacked(r2[0])
+                # (i)+(iv) the first objects and their closures, re-used with the other data; object `a` is asked in its own
+                # parametrisation, object `b` in the other one
+                ok, rv2 = call("calc_proj_physical_with_var", ":re-used-object", (eps, a), objs[a].calc_proj_physical_with_var,
+                               var2[flag].copy(), on_para_eq_constraint=flag, **HIST)
+                if ok:
+                    results[("var2", a)] = refopt.stack_from_var(t, d, m, rv2[0], flag)
+                    kept[("var2", a)] = (rv2[0], flag)
+                ok, rv2 = call("calc_proj_physical_with_var", ":re-used-object:flag-differs-from-object", (eps, b),
+                               objs[b].calc_proj_physical_with_var, var2[not flag].copy(), on_para_eq_constraint=not flag, **HIST)
+                if ok:
+                    results[("var2", b)] = refopt.stack_from_var(t, d, m, rv2[0], not flag)
+                    kept[("var2", b)] = (rv2[0], not flag)
+                # (the hooks judge the closures' inner executions against the inner objects' own data; what a closure
+                # returns for the variable vector it was GIVEN is judged here, as one more form of the second input)
+                # (cost: the two closure kinds alternate between cases, the other-flag closure runs on every third case)
+                if a in clo_obj and alt == 0:
+                    ok, v_ = call("func_calc_proj_physical", ":re-used-closure", None, clo_obj[a], var2[flag].copy())
+                    if ok:
+                        results[("closure-obj2", a)] = refopt.stack_from_var(t, d, m, v_, flag)
+                if b in clo_var and alt == 1:
+                    ok, v_ = call("func_calc_proj_physical_with_var", ":re-used-closure", None, clo_var[b], var2[flag].copy())
+                    if ok:
+                        results[("closure-var2", b)] = refopt.stack_from_var(t, d, m, v_, flag)
+                if not heavy and i % 3 == 0:
+                    # a closure asked for the parametrisation its object was not built with
+                    ok, f3 = ctx.attempt(objs[b].func_calc_proj_physical, on_para_eq_constraint=not flag, mode_proj_order=b, max_iteration=MAX_ITER)
+                    if ok:
+                        ok, v_ = call("func_calc_proj_physical", ":re-used-object:flag-differs-from-object", None, f3, var2[not flag].copy())
+                        if ok:
+                            results[("closure-obj2-other-flag", b)] = refopt.stack_from_var(t, d, m, v_, not flag)
+                for (form, o_) in [k for k in results if k[0].startswith("closure-") and k[0].endswith(("2", "2-other-flag"))]:
+                    O.judge("func_calc_proj_physical" + ("_with_var" if form.startswith("closure-var") else ""), s2, results[(form, o_)], None,
+                            eps, o_, MAX_ITER, rng, want_sdp=False,
+                            sfx=":re-used-closure" if not form.endswith("other-flag") else ":re-used-object:flag-differs-from-object")
+                # (ii) provenance: objects derived from the configured ones inherit threshold and (where documented) order
+                ok, gobj = ctx.attempt(objs[a].generate_from_var, var2[flag].copy(), mode_proj_order=a)
+                if not ok:
+                    ctx.violation(f"generate_from_var:{t}:" + ctx.exc_key(gobj) + ":via-generate-from-var", {})
+                else:
+                    ok, rg = call("calc_proj_physical", ":via-generate-from-var", (eps, a), gobj.calc_proj_physical, **HIST)
+                    if ok:
+                        results[("gfv2", a)] = gen.stacked(rg[0])
+                if not heavy and i % 3 == 1:
+                    ok, zobj = ctx.attempt(objs[b].generate_zero_obj)
+                    if ok:
+                        call("calc_proj_physical", ":via-zero-obj", (eps, b), zobj.calc_proj_physical, **HIST)
+                # every form of the second input denotes the same nearest point (cross-form tolerance of the looser threshold)
+                forms2 = [k for k in (("obj2", b), ("var2", a), ("var2", b), ("gfv2", a)) if k in results]
+                for k in forms2[1:]:
+                    ctx.num("forms:second-input-forms-agree", float(np.linalg.norm(results[forms2[0]] - results[k])), 4 * tp2, 4 * tf2,
+                            key=f"calc_proj_physical:{t}:{k[0]}-form-differs-from-{forms2[0][0]}-form:flag={flag}:second-input",
+                            info={"eps": eps, "eps2": eps2, "orders": [forms2[0][1], k[1]]})
+                rejudge_kept("first-input")
+                # (i) public setter between two queries of the same object: both objects swap their order, then the first
+                # data again (object level with history on `a`; variable level on `a`; through copy() on `b`)
+                swapped = True
+                for o_ in (a, b):
+                    ok, e_ = ctx.attempt(objs[o_].set_mode_proj_order, other[o_])
+                    if not ok:
+                        ctx.violation(f"set_mode_proj_order:{t}:" + ctx.exc_key(e_), {})
+                        swapped = False
+                # (cost: an input that needed more than 150 sweeps in the first pass is asked again either directly or
+                # through the copy, alternating; a sweep count is not a clock)
+                direct, via_copy = (True, True) if sweeps <= 150 else (alt == 0, alt == 1)
+                if swapped and direct:
+                    ok, ra = call("calc_proj_physical", ":after-setter", (eps, other[a]), objs[a].calc_proj_physical, **HIST)
+                    if ok and ("obj", other[a]) in results:
+                        # same data, same threshold, same order as the fresh object built with that order
+                        ctx.num("forms:after-setter-agrees-with-fresh-object", float(np.linalg.norm(gen.stacked(ra[0]) - results[("obj", other[a])])),
+                                tp, tf, key=f"calc_proj_physical:{t}:result-differs-from-fresh-object-of-that-order:after-setter",
+                                info={"eps": eps, "order": other[a], "a_norm": an})
+                    if not heavy and alt == 0:
+                        call("calc_proj_physical_with_var", ":after-setter", (eps, other[a]), objs[a].calc_proj_physical_with_var,
+                             var_in.copy(), on_para_eq_constraint=flag, **HIST)
+                if swapped and via_copy:
+                    ok, cobj = ctx.attempt(objs[b].copy)
+                    if not ok:
+                        ctx.violation(f"copy:{t}:" + ctx.exc_key(cobj) + ":after-setter:via-copy", {})
+                    else:
+                        ok, rc = call("calc_proj_physical", ":after-setter:via-copy", (eps, other[b]), cobj.calc_proj_physical, **HIST)
+                        if ok and ("obj", other[b]) in results:
+                            ctx.num("forms:after-setter-agrees-with-fresh-object", float(np.linalg.norm(gen.stacked(rc[0]) - results[("obj", other[b])])),
+                                    tp, tf, key=f"calc_proj_physical:{t}:result-differs-from-fresh-object-of-that-order:after-setter:via-copy",
+                                    info={"eps": eps, "order": other[b], "a_norm": an})
+                rejudge_kept("second-input")
+            state["oracle"] = None
+            # ---- cross-form agreement (each form is within tol of the unique nearest point)
             if ("obj", "eq_ineq") in results and ("obj", "ineq_eq") in results:
                 ctx.num("forms:order-independent", float(np.linalg.norm(results[("obj", "eq_ineq")] - results[("obj", "ineq_eq")])), tp, tf,
                         key=f"calc_proj_physical:{t}:result-depends-on-projection-order", info={"eps": eps, "flag": flag, "a_norm": an})
